@@ -3,6 +3,7 @@ CONSTANTS
   MaxDepth = 3
   SampleSize = 3000
   NegUnionFlipsEach = FALSE
+  NegNestedUnionFlips = FALSE
   FalsyObjs = {}
   OperandTruthFilter = FALSE
 SPECIFICATION Spec
